@@ -28,6 +28,16 @@ CHECKS = {
          "A1 floats as reals; complex numbers are outside the value model. evaluate_sum / gen_evaluations / input structuring (evaluator, closures mutating the scope, numpy) "
          "are out of the verifier's reach: decided by the bounded tier only. IntegralGrader not covered (scipy absent).",
     design="6/C19"),
+ 'C08': dict(
+    technique="contract-based deductive verification (pyvc on the real ItemGrader.check: nested loop invariants with an induction-proved prefix-count lemma, abstract check_response as uninterpreted GRADE/MSG functions); bounded run-time checks as stand-in",
+    text="Proved for all answer tuples (any number of alternatives, any expect-tuple lengths) and any check_response: ItemGrader.check raises ConfigError exactly when "
+         "there is no alternative; otherwise it returns a fresh well-formed entry whose grade is >= the grade check_response gives for EVERY alternative x expect value "
+         "(forall i, j: GRADE(A[i], A[i].expect[j]) <= result.grade, hence independent of listing order) and >= every collected result; a blank message with grade 0 is "
+         "returned only if wrong_msg is blank; nothing reachable from the configuration is written (answer.copy(): frame obligation). "
+         "Bounded (not proved): the result is one of check_response's results, longest message among ties, wrong_msg exactly when applicable, for real graders and subgraders.",
+    note="Assumed (A15/A9): check_response is deterministic in (alternative, expect value) for a fixed grader and submission, returns a fresh well-formed entry or raises, "
+         "and writes nothing the caller can reach. The two existential clauses (membership in results, longest message) were left undecided by z3 and are bounded-only.",
+    design="6/C08"),
 }
 
 NOT_YET = {}
